@@ -15,7 +15,7 @@ Definition has_out (o : out) (s : st) : bool := existsb (out_eqb o) (outs s).
 
 (* ---- F1: remote force close, one commit-sweep resolver ---- *)
 Definition sc_commit : scen :=
-  mkScen KRemote false false false false [] [] [] [mkSpec 900 [mkStage [] [(900, 0)]]].
+  mkScen KRemote false false false false [] [] [] [mkSpec 900 [mkStage [] [(900, 0)] 0]].
 
 (* arbitrator to StateWaitingFullResolution, resolver: sweep confirmed,
    Checkpoint(resolved = true) committed -- stop before log.ResolveContract *)
@@ -49,7 +49,7 @@ Proof. repeat split; vm_compute; reflexivity. Qed.
    window state (before the stop) and its conclusion is the recovery *)
 Example f1_window_hyps :
   let h := repeat M 16 ++ [R 900; R 900] in
-  find_spec sc_commit 900 = Some (mkSpec 900 [mkStage [] [(900, 0)]])
+  find_spec sc_commit 900 = Some (mkSpec 900 [mkStage [] [(900, 0)] 0])
   /\ d_full (dk (run sc_commit h)) = false /\ d_state (dk (run sc_commit h)) = SWaiting
   /\ d_con (dk (run sc_commit h)) 900 = Some 1%nat
   /\ d_con (dk (run sc_commit (h ++ [ECrash; M; R 900]))) 900 = None.
@@ -57,7 +57,7 @@ Proof. repeat split; vm_compute; reflexivity. Qed.
 
 (* ---- F2: remote (pending) close, dust fail-back + dangling htlc ---- *)
 Definition sc_dust : scen :=
-  mkScen KRemote false false false true [2] [6] [] [mkSpec 900 [mkStage [] [(900, 0)]]].
+  mkScen KRemote false false false true [2] [6] [] [mkSpec 900 [mkStage [] [(900, 0)] 0]].
 
 (* stop after LogContractResolutions and InsertConfirmedCommitSet, before
    MarkChannelClosed; then everything runs on undisturbed *)
@@ -81,7 +81,7 @@ Proof. repeat split; vm_compute; reflexivity. Qed.
 (* ---- candidate 7-c: re-executing StateContractClosed overwrites a checkpoint ---- *)
 Definition sc_two : scen :=
   mkScen KLocal true false false false [2] [] []
-         [mkSpec 22 [mkStage [OFail 1] [(22, 4)]; mkStage [] [(0, 3)]]].
+         [mkSpec 22 [mkStage [OFail 1] [(22, 4)] 0; mkStage [] [(0, 3)] 0]].
 
 (* arbitrator up to InsertUnresolvedContracts (CommitState(Waiting) pending),
    the resolver completes stage one and checkpoints *)
@@ -107,10 +107,10 @@ Proof. repeat split; vm_compute; reflexivity. Qed.
    with every kind of ingredient reaches the terminal state under crashes *)
 Definition sc_rich : scen :=
   mkScen KRemote false false true false [2] [] [3]
-         [mkSpec 900 [mkStage [] [(900, 0)]];
-          mkSpec 21 [mkStage [OFail 1] [(21, 3)]];
-          mkSpec 24 [mkStage [] []; mkStage [OFail 4] [(24, 3)]];
-          mkSpec 25 [mkStage [OSettle 5] [(25, 0)]]].
+         [mkSpec 900 [mkStage [] [(900, 0)] 0];
+          mkSpec 21 [mkStage [OFail 1] [(21, 3)] 0];
+          mkSpec 24 [mkStage [] [] 0; mkStage [OFail 4] [(24, 3)] 0];
+          mkSpec 25 [mkStage [OSettle 5] [(25, 0)] 0]].
 
 Example rich_nonvacuous :
   wf_scen sc_rich = true
@@ -162,8 +162,8 @@ Proof. reflexivity. Qed.
    history reaches the terminal state *)
 Definition sc_in : scen :=
   mkScen KRemote false false false false [2] [] [3]
-         [mkSpec 900 [mkStage [] [(900, 0)]];
-          mkSpec 21 [mkStage [OFail 1] [(21, 3)]];
+         [mkSpec 900 [mkStage [] [(900, 0)] 0];
+          mkSpec 21 [mkStage [OFail 1] [(21, 3)] 0];
           inc_spec ip_remote true;
           inc_spec (mkIP false 28 8 28) false].
 
